@@ -13,8 +13,10 @@ RULE = ("pairs of 0-4-d arrays over a common pool of 5 dimension names, arbitrar
         "int-vs-float}; six operators, both operand orders, int and float data; scalar operands (python int/float, np.int64, np.float64) "
         "in both orders and ndarray right operands. class = (dims pattern, per shared dim (kind, pattern, orders), op, data kinds) or "
         "(scalar type, op, side); trivial = none")
-ANCHORS = ["operation.operation", "align.align", "axes.union", "align.align_dims", "dimarraycls._binary_op", "dimarraycls._rbinary_op"]
-FLOORS = {"quick": {"evaluations": 1500, "distinct": 500, "anchor:axes.union": 500, "outcome:cells-checked": 1500},
+ANCHORS = ["operation.operation", "align.align", "axes.union", "align.align_dims", "dimarraycls._binary_op", "dimarraycls._rbinary_op", "bases.__add__", "bases.__truediv__"]
+# entry points the workload calls itself; the other anchors are helpers behind them (counted as evidence only)
+ANCHORS_REQUIRED = ["bases.__add__", "bases.__truediv__"]
+FLOORS = {"quick": {"evaluations": 1500, "distinct": 500, "outcome:pairs-with-differing-shared-labels": 300, "outcome:cells-checked": 1500},
           "thorough": {"evaluations": 50000, "distinct": 3000}}
 OPS = {"add": np.add, "sub": np.subtract, "mul": np.multiply, "truediv": np.true_divide, "floordiv": np.floor_divide, "pow": np.power}
 PYOP = {"add": lambda x, y: x + y, "sub": lambda x, y: x - y, "mul": lambda x, y: x * y, "truediv": lambda x, y: x / y,
@@ -163,6 +165,8 @@ def check(case, ctx):
             if msg:
                 ctx.v(ID, "pair-mismatch", msg)
         shared = [d for d in ma.dims if d in mb.dims]
+        if any(sorted(map(str, ma.labels[ma.dims.index(d)])) != sorted(map(str, mb.labels[mb.dims.index(d)])) for d in shared):
+            ctx.outcomes['pairs-with-differing-shared-labels'] += 1
         return ("pair", len(ma.dims), len(mb.dims), len(shared), tuple(ma.dims) == tuple(d for d in mb.dims if d in ma.dims),
                 tuple(sorted(case["pats"])), op, ma.values.dtype.kind + mb.values.dtype.kind)
     sp = case["a"]
